@@ -295,7 +295,7 @@ def r06d_impl(model: Model, rr: RuleResult):
         elif g_ is not None:
             rr.bad(wf, g_, f"the path looked up by try_reuse ({short(a)}) is not the path inserted by add_glyph ({short(b)}): later copies are compared "
                    f"with a different outline", construct=f"try_reuse({short(a)}) vs add_glyph(_, {short(b)})")
-        if len(c_.args) > 2 and norm(c_.args[2]) == norm(a):
+        if any(norm(x_) == norm(a) for x_ in list(c_.args[1:]) + [k_.value for k_ in c_.keywords]):
             rr.ok("the outline drawn into the new glyph is the same font-space path")
         else:
             rr.bad(wf, c_, "the glyph is drawn from a different path than the one registered for reuse", construct=short(c_))
